@@ -164,7 +164,15 @@ def convert(src):
 
 PRELUDE = """
 import numpy as np
-from math import cos, sin, sqrt, acos, atan2, fabs, isnan, pow, pi as M_PI
+from math import cos, sin, sqrt, acos, atan2, fabs, isnan, pi as M_PI
+import math as _math
+
+
+def pow(x, y):
+    # C pow; gcc compiles pow(x, 2.0) to x*x (correctly rounded), glibc's pow is 1 ulp off for ~0.08 % of inputs
+    return x * x if y == 2 else _math.pow(x, y)
+
+
 OPENMP = False
 PARALLEL_BLOCK = True
 prange = range
